@@ -535,11 +535,11 @@ class ColumnDefinition:
             if remaining_column_text[next_segment_ending_index] == "(":
 
                 # If we find a "(", we return the index of the closing ")" accounting for the following whitespace
-                return (
+                return ColumnDefinition._segment_end_after_parenthesis(
+                    remaining_column_text,
                     get_index_of_closing_parenthesis(
                         remaining_column_text, next_segment_ending_index
-                    )
-                    + 1
+                    ),
                 )
 
             elif remaining_column_text[next_segment_ending_index].isspace():
@@ -547,11 +547,11 @@ class ColumnDefinition:
                 if remaining_column_text[next_segment_ending_index + 1] == "(":
 
                     # If we find a "(", return the index of the closing one accounting for the following whitespace
-                    return (
+                    return ColumnDefinition._segment_end_after_parenthesis(
+                        remaining_column_text,
                         get_index_of_closing_parenthesis(
                             remaining_column_text, next_segment_ending_index + 1
-                        )
-                        + 1
+                        ),
                     )
 
                 """
@@ -595,6 +595,18 @@ class ColumnDefinition:
         log_message = log_message.format(index, column_name, remaining_column_text)
         logger.error(log_message)
         raise MasterSchemaRowParsingError(log_message)
+
+    @staticmethod
+    def _segment_end_after_parenthesis(remaining_column_text, closing_parenthesis_index):
+
+        # The segment includes the whitespace character after the ")" only if there is one: "VARCHAR(10)NOT NULL"
+        following_index = closing_parenthesis_index + 1
+        if (
+            following_index < len(remaining_column_text)
+            and not remaining_column_text[following_index].isspace()
+        ):
+            return closing_parenthesis_index
+        return following_index
 
     @staticmethod
     def _is_column_constraint_preface(segment):
